@@ -3,15 +3,30 @@
 package election
 
 import (
+	"context"
 	"time"
 
 	"k8s.io/client-go/tools/leaderelection/resourcelock"
 
+	"github.com/kubewharf/kubebrain/pkg/storage"
+	badgerkv "github.com/kubewharf/kubebrain/pkg/storage/badger"
+	"github.com/kubewharf/kubebrain/pkg/storage/memkv"
+	"github.com/kubewharf/kubebrain/pkg/zzc11"
 	"github.com/kubewharf/kubebrain/pkg/zzmodel"
 	"github.com/kubewharf/kubebrain/pkg/zzverif"
 )
 
-func vNewLock(s *zzmodel.Store, id string) *resourceLock {
+// vRawGet reads the stored lock record through the engine.
+func vRawGet(s storage.KvStorage, key []byte) ([]byte, bool) {
+	v, err := s.Get(context.Background(), key)
+	if err != nil {
+		zzverif.Assert(err == storage.ErrKeyNotFound, "engine: get answers a value or not-found")
+		return nil, false
+	}
+	return v, true
+}
+
+func vNewLock(s storage.KvStorage, id string) *resourceLock {
 	m := NewResourceLockManager(Config{Prefix: "/r", Identity: id, Timeout: time.Second}, s)
 	return m.GetResourceLock().(*resourceLock)
 }
@@ -20,8 +35,27 @@ func vNewLock(s *zzmodel.Store, id string) *resourceLock {
 // acquire-or-renew succeeds only if the stored lock record is exactly what that candidate last
 // read (or created); creating succeeds for at most one candidate per absence.
 func VerifC14Lock() {
-	s := zzmodel.NewStore()
-	s.BareCASError = zzverif.Bool("bareCAS")
+	// the engine under the lock: the contract store (both conflict-reporting styles), or the real
+	// adapter code of the in-memory engine, Badger and TiKV (over the models of their libraries)
+	var s storage.KvStorage
+	switch zzverif.Choose("engine", zzverif.Param("engines", 1)) {
+	case 0:
+		cs := zzmodel.NewStore()
+		cs.BareCASError = zzverif.Bool("bareCAS")
+		s = cs
+	case 1:
+		s = memkv.NewKvStorage()
+		zzverif.Cover("engine-memkv")
+	case 2:
+		bd, err := badgerkv.NewKvStorage(badgerkv.Config{Dir: zzverif.TempDir()})
+		zzverif.Assert(err == nil, "badger opens")
+		defer bd.Close()
+		s = bd
+		zzverif.Cover("engine-badger")
+	default:
+		s = zzc11.NewMockTiKV()
+		zzverif.Cover("engine-tikv")
+	}
 	n := zzverif.Param("candidates", 2)
 	locks := make([]*resourceLock, n)
 	lastRead := make([][]byte, n) // what each candidate last observed (nil: nothing)
@@ -35,7 +69,7 @@ func VerifC14Lock() {
 		tag := "step" + string(rune('0'+k))
 		c := zzverif.Choose(tag+".who", n)
 		l := locks[c]
-		before, present := s.RawGet(key)
+		before, present := vRawGet(s, key)
 		rec := resourcelock.LeaderElectionRecord{HolderIdentity: ids[c], LeaseDurationSeconds: 8, LeaderTransitions: zzverif.Int(tag + ".transitions")}
 		switch zzverif.Choose(tag+".what", 3) {
 		case 0:
@@ -51,18 +85,18 @@ func VerifC14Lock() {
 			err := l.Create(rec)
 			if err == nil {
 				zzverif.Assert(!present, "create succeeds only when no record exists")
-				now, _ := s.RawGet(key)
+				now, _ := vRawGet(s, key)
 				lastRead[c] = append([]byte(nil), now...)
 				zzverif.Cover("created")
 			} else {
 				zzverif.Assert(present, "create fails only when a record exists")
-				after, _ := s.RawGet(key)
+				after, _ := vRawGet(s, key)
 				zzverif.Assert(zzverif.BytesEq(after, before), "a failed create leaves the record unchanged")
 				zzverif.Cover("create-refused")
 			}
 		default:
 			err := l.Update(rec)
-			after, still := s.RawGet(key)
+			after, still := vRawGet(s, key)
 			if err == nil {
 				zzverif.Assert(present && lastRead[c] != nil, "update succeeds only on a record the candidate has observed")
 				zzverif.Assert(zzverif.BytesEq(before, lastRead[c]), "update succeeds only if the stored record is exactly what the candidate last read")
